@@ -40,10 +40,11 @@ structure Fixes where
   nameGuard    : Bool  -- `name[i+1:length-1]` is guarded
   nsGuard      : Bool  -- ns(0) terminates; the multipart decoder returns the `until` parse error
   influxNewline : Bool -- the influx decoder terminates the last line (telegraf's parser spins on a trailing escape)
+  influxMsg    : Bool  -- getMessage reads `fields["message"]` with the comma-ok form (C03 fix): no assertion that can fail
   deriving DecidableEq, Repr
 
-def fixed : Fixes := ⟨true, true, true, true, true, true, true, true⟩
-def pinned : Fixes := ⟨false, false, false, false, false, false, false, false⟩
+def fixed : Fixes := ⟨true, true, true, true, true, true, true, true, true⟩
+def pinned : Fixes := ⟨false, false, false, false, false, false, false, false, false⟩
 
 /-! ## Fault-capable primitives -/
 
@@ -264,7 +265,7 @@ def logStep (fx : Fixes) (thr : Nat) (st : LogSt) : LogItem → Res LogSt
   | .entries c => liftE (onEntries fx thr st c)
   | .fillThenEntries n c => liftE (do let _ ← fastFillArray fx n; onEntries fx thr st c)
   | .error code => .err code
-  | .assertStr b => liftE (do assertString b; pure st)
+  | .assertStr b => if fx.influxMsg then .ok st else liftE (do assertString b; pure st)
   | .derefGetter p => if fx.otlpGetters then .ok st else liftE (do deref p; pure st)
   | .danglingEscape => if fx.influxNewline then .err 400 else .spin
 
